@@ -1,6 +1,7 @@
 import HpxVerif.Lemmas.PolyLemmas
 import HpxVerif.Props.C15
 import HpxVerif.Lemmas.EllipseReal
+import HpxVerif.Props.C16
 
 /-!
 # C13 — elliptical-cone coverage: centre kept, circular case sound, tight, guarded
@@ -195,5 +196,14 @@ theorem circular_is_cone (lon lat a pa l φ : ℝ) (hlon : 0 ≤ lon ∧ lon < 2
 example : (0 : ℝ) ≤ 1 ∧ (1 : ℝ) < 2 * Real.pi ∧ -(Real.pi / 2) ≤ (0 : ℝ) ∧ (0 : ℝ) ≤ Real.pi / 2 ∧ (0 : ℝ) < 1 / 2 ∧ (1 / 2 : ℝ) < Real.pi / 2 := by
   have := Real.two_le_pi
   refine ⟨by norm_num, by linarith, by linarith, by linarith, by norm_num, by linarith⟩
+
+/-- the table of limits that selects the starting depth is regular (each depth halves the limit, relative excess
+    `≈ 0.05·2^-k`): the obligation of C16 about the constants of the source, required here because the start cells of this
+    coverage are chosen with that table -/
+theorem start_depth_table_regular :
+    (∀ j, j < 24 →
+      C16.dyHalvingLo (j + 2) 1 25 (Gen.smallerEdge2OpEdgeDistDyadic.getD (j + 2) (0, 0)) (Gen.smallerEdge2OpEdgeDistDyadic.getD (j + 3) (0, 0)) = true ∧
+      C16.dyHalvingHi (j + 2) 1 10 (Gen.smallerEdge2OpEdgeDistDyadic.getD (j + 2) (0, 0)) (Gen.smallerEdge2OpEdgeDistDyadic.getD (j + 3) (0, 0)) = true) :=
+  C16.table_halving.1
 
 end Hpx.C13
